@@ -93,3 +93,17 @@ fn desanitize_settings<T: FloatT>(settings: &mut DefaultSettings<T>) {
         settings.time_limit = f64::INFINITY;
     }
 }
+
+// verification hooks (C19, add-only, feature gated): call-through to the private
+// settings sanitise / desanitise helpers.
+#[cfg(feature = "verif-hooks")]
+#[allow(missing_docs)]
+pub mod verif_hooks_json {
+    use super::*;
+    pub fn sanitize<T: FloatT>(settings: &mut DefaultSettings<T>) {
+        sanitize_settings(settings)
+    }
+    pub fn desanitize<T: FloatT>(settings: &mut DefaultSettings<T>) {
+        desanitize_settings(settings)
+    }
+}
